@@ -685,6 +685,12 @@ def _conj(e, self_path, fl):
     """what is known when the boolean e is true: None = e is never true; else a set of atoms"""
     e = peel(e)
     k = e.get("k")
+    if k == "Block" and e.get("e") is not None and all(st.get("k") == "Let" for st in e["stmts"]):
+        return _conj(e["e"], self_path, fl)          # `let has_else = ..; has_else && ..`: the locals are followed below
+    if k == "Path" and e.get("res") == "Local":
+        o = fl.origin.get(e["hid"])
+        if o and o["kind"] == "let" and o.get("path") == () and o.get("src") is not None:
+            return _conj(o["src"], self_path, fl)
     if k == "Lit":
         return set() if e.get("v") is True else (None if e.get("v") is False else {("?", pp(e))})
     if k == "Binary" and e.get("op") == "And":
